@@ -178,6 +178,27 @@ func (d *Driver) Run() int {
 			}
 		}
 	}
+	// packages are always loaded in dependency order (ast before builder before main), whatever the order asked
+	// for: a package loaded by the verifier must be the one its importers see
+	{
+		want := map[string]bool{}
+		for _, tg := range strings.Split(d.Targets, ",") {
+			want[strings.TrimSpace(tg)] = true
+		}
+		if want["main"] {
+			want["ast"], want["builder"] = true, true
+		}
+		if want["builder"] {
+			want["ast"] = true
+		}
+		var ord []string
+		for _, tg := range []string{"rt", "ast", "builder", "main"} {
+			if want[tg] {
+				ord = append(ord, tg)
+			}
+		}
+		d.Targets = strings.Join(ord, ",")
+	}
 	for _, tg := range strings.Split(d.Targets, ",") {
 		switch tg {
 		case "rt":
